@@ -57,7 +57,13 @@ func sanitize(s string) string {
 func (tm *TypeMap) uniqueDataName(short, full string) string {
 	name := short
 	for i := 2; ; i++ {
-		if prev, ok := tm.dataName[name]; !ok || prev == full {
+		prev, ok := tm.dataName[name]
+		if ok && prev == full {
+			return name
+		}
+		// a name already taken by a sort that is not the datatype of a Go struct (e.g. the lib alias `sort Dec = Int` against the
+		// Go struct precompiles/common.Dec) must not be reused: Sorts.Data would silently return that other sort
+		if !ok && tm.c.Sorts.Lookup(name) == nil {
 			tm.dataName[name] = full
 			return name
 		}
